@@ -133,6 +133,9 @@ structure Group (α : Type) where
   gtype : String
   enc : Enc α
   cache : Option (Int × GData α)
+  /-- `_coordinate_type`: the coordinate type handed down by the instance the group was parsed with (absent on a group
+  built by the constructor or parsed on its own by `AnnotationGroup.from_dataset`) -/
+  known : Option Int := none
 
 def construct {α : Type} [DecidableEq α] (gt : String) (finite : α → Bool) (isDouble : Bool) (cast : α → α)
     (gd : GData α) : Except ErrKind (Group α) :=
@@ -190,6 +193,12 @@ def constructArrs {α : Type} [DecidableEq α] (gt : String) (finite : α → Bo
 
 /-- `AnnotationGroup.from_dataset` (also after a file round trip): the stored attributes, no cache -/
 def parse {α : Type} (g : Group α) : Group α := { g with cache := none }
+
+/-- the group as an item of an instance parsed by `MicroscopyBulkSimpleAnnotations.from_dataset` / `annread` whose
+AnnotationCoordinateType is `t` (2 / 3): no cache, and the instance hands its coordinate type down
+(`Gen.sopHandsDownCoordinateType`, regenerated from `ann/sop.py`) -/
+def parseVia {α : Type} (t : Int) (g : Group α) : Group α :=
+  { g with cache := none, known := if sopHandsDownCoordinateType then some t else none }
 
 /-! ### reading -/
 
@@ -267,7 +276,9 @@ def decode {α : Type} (gt : String) (e : Enc α) (ct : Int) : Except ErrKind (G
 def getGraphicData {α : Type} (g : Group α) (ct : Int) : Except ErrKind (GData α) :=
   match g.cache with
   | some (t, gd) => if t = ct then .ok gd else .error .value
-  | none => decode g.gtype g.enc ct
+  | none => match coordTypeGuard ct g.known g.enc.commonZ.isSome with
+    | .error e => .error e
+    | .ok _ => decode g.gtype g.enc ct
 
 /-- `get_coordinates(annotation_number, coordinate_type)` -/
 def getCoordinates {α : Type} (g : Group α) (k : Int) (ct : Int) : Except ErrKind (Annot α) :=
@@ -301,14 +312,17 @@ inductive Obs (α : Type)
   | nth (a : Annot α)
   deriving DecidableEq
 
-/-- `get_graphic_data` with its side effect: a parsed group decodes with the REQUESTED coordinate type (it does
-not know its own) and keeps the result under that key; once the cache is filled every other type is refused -/
+/-- `get_graphic_data` with its side effect: a parsed group first refuses a requested coordinate type that contradicts
+what it knows (`Gen.coordTypeGuard`: the type handed down by its instance, a stored CommonZCoordinateValue), then decodes
+with the REQUESTED type and keeps the result under that key; once the cache is filled every other type is refused -/
 def getGraphicDataS {α : Type} (g : Group α) (ct : Int) : Except ErrKind (GData α × Group α) :=
   match g.cache with
   | some (t, gd) => if t = ct then .ok (gd, g) else .error .value
-  | none => match decode g.gtype g.enc ct with
+  | none => match coordTypeGuard ct g.known g.enc.commonZ.isSome with
     | .error e => .error e
-    | .ok gd => .ok (gd, { g with cache := some (ct, gd) })
+    | .ok _ => match decode g.gtype g.enc ct with
+      | .error e => .error e
+      | .ok gd => .ok (gd, { g with cache := some (ct, gd) })
 
 /-- one access: its answer and the state of the object afterwards (an exception raised after the decoding
 has happened leaves the cache filled) -/
